@@ -177,13 +177,110 @@ def same(a, b):
     return a == b and type(a) in (type(b), int, bool) or (a == b)
 
 
+def same_value(a, b):
+    """dataclass values equal field by field, NaN equal to NaN, -0.0 different from 0.0"""
+    import dataclasses
+    import math
+    if dataclasses.is_dataclass(a) and dataclasses.is_dataclass(b) and type(a) is type(b):
+        return all(same_value(getattr(a, f.name), getattr(b, f.name)) for f in dataclasses.fields(a))
+    if isinstance(a, float) and isinstance(b, float):
+        return (math.isnan(a) and math.isnan(b)) or (a == b and math.copysign(1, a) == math.copysign(1, b))
+    if isinstance(a, (list, tuple)) and isinstance(b, (list, tuple)) and type(a) is type(b):
+        return len(a) == len(b) and all(same_value(x, y) for x, y in zip(a, b))
+    if isinstance(a, dict) and isinstance(b, dict):
+        return a.keys() == b.keys() and all(same_value(a[k], b[k]) for k in a)
+    return type(a) is type(b) and a == b
+
+
+def client_conversion_case(seed, n_per_class):
+    """What the public client hands out (list_entities_services, subscribe_states, device_info) for wire messages with boundary
+    values must be exactly the conversion of those very messages. Returns a list of (path, message class, problem)."""
+    import asyncio
+    from vlib import simnet
+    rng = random.Random(seed)
+
+    async def go(loop):
+        from aioesphomeapi import api_pb2 as pb
+        from aioesphomeapi.model import DeviceInfo
+        from aioesphomeapi.model_conversions import LIST_ENTITIES_SERVICES_RESPONSE_TYPES, SUBSCRIBE_STATES_RESPONSE_TYPES
+        net = simnet.Net(loop)
+        bad, n = [], 0
+        with net.patched():
+            cli, tr = await simnet.connected_client(loop, net)
+            # entity infos
+            sent = []
+            for wire, mdl in LIST_ENTITIES_SERVICES_RESPONSE_TYPES.items():
+                if mdl is None:
+                    continue
+                for _ in range(n_per_class):
+                    sent.append((wire, mdl, fill_message(rng, wire)))
+            task = asyncio.ensure_future(cli.list_entities_services())
+            await simnet.drain(loop)
+            for wire, mdl, m in sent:
+                tr.feed(simnet.plain_msg(m))
+            tr.feed(simnet.plain_msg(pb.ListEntitiesDoneResponse()))
+            await simnet.drain(loop)
+            entities, services = await task
+            got = list(entities) + list(services)
+            want = [(wire, mdl.from_pb(m)) for wire, mdl, m in sent]
+            n += len(sent)
+            if len(got) != len(want):
+                bad.append(("list_entities_services", "*", f"{len(got)} objects returned for {len(want)} wire messages"))
+            else:
+                pool = list(got)
+                for wire, w in want:
+                    hit = next((g for g in pool if same_value(g, w)), None)
+                    if hit is None:
+                        cand = next((g for g in pool if type(g) is type(w) and getattr(g, "key", None) == getattr(w, "key", None)), None)
+                        bad.append(("list_entities_services", wire.__name__, f"from_pb gives {w!r:.300}, the client returned {cand!r:.300}"))
+                        break
+                    pool.remove(hit)
+            # entity states
+            states = []
+            cli.subscribe_states(states.append)
+            await simnet.drain(loop)
+            sent = []
+            for wire, mdl in SUBSCRIBE_STATES_RESPONSE_TYPES.items():
+                for _ in range(n_per_class):
+                    sent.append((wire, mdl, fill_message(rng, wire)))
+            for wire, mdl, m in sent:
+                tr.feed(simnet.plain_msg(m))
+            await simnet.drain(loop)
+            n += len(sent)
+            want = [(wire, mdl.from_pb(m)) for wire, mdl, m in sent if wire.__name__ != "CameraImageResponse"]
+            got = [s for s in states if type(s).__name__ != "CameraState"]
+            if len(got) != len(want):
+                bad.append(("subscribe_states", "*", f"{len(got)} state callbacks for {len(want)} wire messages"))
+            else:
+                for (wire, w), g in zip(want, got):
+                    if not same_value(g, w):
+                        bad.append(("subscribe_states", wire.__name__, f"from_pb gives {w!r:.300}, the callback received {g!r:.300}"))
+                        break
+            # device info
+            for _ in range(n_per_class):
+                m = fill_message(rng, pb.DeviceInfoResponse)
+                task = asyncio.ensure_future(cli.device_info())
+                await simnet.drain(loop)
+                tr.feed(simnet.plain_msg(m))
+                await simnet.drain(loop)
+                g = await task
+                n += 1
+                if not same_value(g, DeviceInfo.from_pb(m)):
+                    bad.append(("device_info", "DeviceInfoResponse", f"from_pb gives {DeviceInfo.from_pb(m)!r:.300}, the client returned {g!r:.300}"))
+                    break
+            await cli.disconnect(force=True)
+            await simnet.drain(loop)
+        return bad, n
+    return simnet.run(go)
+
+
 def run(rep, tier, seed):
     rng = random.Random(seed)
     rep.coverage["rule"] = (
         "every (wire message, model class) pair: random/boundary wire messages (boundary ints, unknown enum numbers max+1/max+7/2^31-1, unicode and long strings, "
         "empty/long repeated fields, nested messages, float32 patterns incl. +-0, inf, nan) through real from_pb / to_dict / from_dict vs the extracted Convert.from_pb and an "
         "independent per-field oracle; fix_float bit-exact vs extracted FloatFix on float32 neighbours of every power of ten, specials and random patterns (+ idempotence on the implementation); "
-        "non-trivial = an unknown enum number, a fixed float or a repeated field is present; distinct by (class, serialized message)")
+        "the same messages through APIClient.list_entities_services / subscribe_states / device_info compared with from_pb; non-trivial = an unknown enum number, a fixed float or a repeated field is present; distinct by (class, serialized message)")
     from translate import gen_model
     from translate.util import TranslationError
     proofs_ok = rep.proofs(VFILE)
@@ -347,6 +444,14 @@ def run(rep, tier, seed):
             if a != b:
                 cdis.append({"class": mn, "field": n, "model": got[n][:80], "impl": enc_value(getattr(obj, n))[:80], "case": replay})
                 break
+    # ---- the same conversions as the public client hands them out
+    for k in range(2 if tier == "quick" else 12):
+        bad, n = client_conversion_case(seed + 1000 + k, 3 if tier == "quick" else 6)
+        rep.case(("client-conversion", k), True, sample={"client_conversion_messages": n, "problems": bad[:2]})
+        rep.bump("client-conversion", n)
+        for path, cls, what in bad[:1]:
+            rep.violation(f"C14/client/{path}", f"APIClient.{path} ({cls}): {what}", {"kind": "impl-case", "variant": "client-conversion", "seed": seed + 1000 + k,
+                                                                                   "n_per_class": 3 if tier == "quick" else 6})
     rep.coverage["disagreements"] = len(fdis) + len(cdis)
     if (fdis or cdis) and not rep.violations:
         rep.violations.append(("C14/correspondence", "the extracted conversion / float model and the implementation disagree; no violation of C14 found among the explored inputs",
